@@ -39,6 +39,45 @@ func jBig(i *big.Int) *jv   { return &jv{kind: 'i', i: i} }
 func jFlo(f float64) *jv    { return &jv{kind: 'd', f: f} }
 func jStr(s string) *jv     { return &jv{kind: 's', s: s} }
 func jArr(xs ...*jv) *jv    { return &jv{kind: 'a', arr: xs} }
+
+// jTime: a time value named by a model token (second:<float> | nano:<int> | text:<string>).
+func jTime(tok string) *jv { return &jv{kind: 'm', s: tok} }
+
+// timeTokCanon turns a model time token into the canonical form of the time it denotes, the way
+// pkg/bag/pkg.go and ojg build the time.Time.
+func timeTokCanon(tok string) string {
+	kind, val, _ := strings.Cut(tok, ":")
+	var t time.Time
+	switch kind {
+	case "second":
+		f, err := strconv.ParseFloat(val, 64)
+		if err != nil {
+			return "m?" + tok
+		}
+		sec := int64(f)
+		t = time.Unix(sec, int64((f-float64(sec))*1_000_000_000.0))
+	case "nano":
+		n, err := strconv.ParseInt(val, 10, 64)
+		if err != nil {
+			return "m?" + tok
+		}
+		t = time.Unix(0, n)
+	case "text":
+		ok := false
+		for _, layout := range []string{time.RFC3339Nano, time.RFC3339, "2006-01-02"} {
+			if pt, err := time.ParseInLocation(layout, val, time.UTC); err == nil {
+				t, ok = pt, true
+				break
+			}
+		}
+		if !ok {
+			return "m?" + tok
+		}
+	default:
+		return "m?" + tok
+	}
+	return "m" + t.UTC().Format(time.RFC3339Nano)
+}
 func jObj(kv ...any) *jv { // alternating string, *jv
 	o := &jv{kind: 'o'}
 	for i := 0; i+1 < len(kv); i += 2 {
@@ -58,8 +97,9 @@ func fmtFloat(f float64) string {
 	return s
 }
 
-// bigLimit: integers at or beyond this magnitude are held as json.Number by ojg's parsers.
-var c18BigLimit = big.NewInt(math.MaxInt64 / 10)
+// bigLimit: integers at or beyond this magnitude are held as json.Number by ojg's parsers (a digit
+// is added while the value so far has reached MaxInt64/10).
+var c18BigLimit = big.NewInt((math.MaxInt64 / 10) * 10)
 
 func (v *jv) isBigInt() bool {
 	return v.kind == 'i' && new(big.Int).Abs(v.i).Cmp(c18BigLimit) >= 0
@@ -139,6 +179,8 @@ func (v *jv) leafKind() string {
 		return "float"
 	case 's':
 		return strKind(v.s)
+	case 'm':
+		return "time"
 	case 'a':
 		if len(v.arr) == 0 {
 			return "empty-arr"
@@ -205,6 +247,8 @@ func (v *jv) wire() []string {
 		return []string{"d" + fmtFloat(v.f)}
 	case 's':
 		return []string{"s" + lib.Hex(v.s)}
+	case 'm':
+		return []string{"m" + lib.Hex(v.s)}
 	case 'a':
 		out := []string{"["}
 		for _, c := range v.arr {
@@ -316,6 +360,8 @@ func (v *jv) canon() string {
 		return canonFloat(v.f)
 	case 's':
 		return "s" + lib.Hex(v.s)
+	case 'm':
+		return timeTokCanon(v.s)
 	case 'a':
 		parts := []string{"["}
 		for _, c := range v.arr {
@@ -424,6 +470,10 @@ func strictAny(v any) string {
 // in map iteration order, which is not an observable.
 var c18SortPairSlices = false
 
+// c18TimeTokens: m<hex> tokens are model time tokens of the J grammar (config family); in the L / G
+// grammars m<text> is a time already in canonical text.
+var c18TimeTokens = false
+
 // tokTree parses model reply tokens of the J / G grammar into a canonical string. Returns the
 // canonical text and the remaining tokens.
 func canonTokens(ts []string) (string, []string, bool) {
@@ -506,6 +556,8 @@ func canonTokens(ts []string) (string, []string, bool) {
 		return canonMembers(ks, vs), rest, true
 	case w[0] == 'd' || w[0] == 'f':
 		return string(w[0]) + canonFloatTok(w[1:])[1:], rest, true
+	case w[0] == 'm' && c18TimeTokens:
+		return timeTokCanon(lib.Unhex(w[1:])), rest, true
 	default:
 		return w, rest, true
 	}
